@@ -509,6 +509,9 @@ func (b *builder) drawFaults(nSites int, allowPreempt bool) {
 			b.sc.Sched.StarveTask = 1 + r.intn(len(b.sc.Tasks))
 		}
 		b.sc.Sched.SyncPreempt = pick(r, []int{0, 20, 100, 300})
+		// pre-emption right before non-local writes (expected: a handful to a
+		// few dozen extra switches per operation)
+		b.sc.Sched.WritePreempt = pick(r, []int{0, 0, 0, 5, 15, 40})
 		if b.sc.Sched.MeanQuantum > 0 && b.sc.Sched.MeanQuantum <= 50 {
 			b.sc.Monitor = 8
 		}
